@@ -1,0 +1,49 @@
+#  This file is part of Pynguin.
+#
+#  SPDX-FileCopyrightText: 2019–2026 Pynguin Contributors
+#
+#  SPDX-License-Identifier: MIT
+#
+"""Fault-injection points for verification runs.
+
+Everything in this module is inert unless the environment variable
+``SE2P_PYNGUIN_VERIF`` is set to ``1``.  With the guard on, ``phase(name)`` appends
+``<pid> <name>`` to ``$SE2P_PYNGUIN_VERIF_STATE/phases.log`` and, if
+``SE2P_PYNGUIN_VERIF_CRASH=<name>:<n>`` names this phase and fewer than ``n``
+processes have died at it so far (counted in ``crashes.log`` of the state
+directory), records the crash and kills the process with ``os._exit(70)``.
+"""
+
+from __future__ import annotations
+
+import os
+from pathlib import Path
+
+GUARD = "SE2P_PYNGUIN_VERIF"
+
+
+def phase(name: str) -> None:
+    """Mark a pipeline phase boundary (no-op unless the guard is set).
+
+    Args:
+        name: The name of the phase that is about to start.
+    """
+    if os.environ.get(GUARD) != "1":
+        return
+    state = os.environ.get("SE2P_PYNGUIN_VERIF_STATE")
+    if not state:
+        return
+    state_dir = Path(state)
+    with (state_dir / "phases.log").open("a", encoding="utf-8") as log:
+        log.write(f"{os.getpid()} {name}\n")
+    target, _, count = os.environ.get("SE2P_PYNGUIN_VERIF_CRASH", "").partition(":")
+    if target != name:
+        return
+    crashes = state_dir / "crashes.log"
+    died = 0
+    if crashes.exists():
+        died = sum(1 for line in crashes.read_text(encoding="utf-8").splitlines() if line)
+    if died < int(count or 1):
+        with crashes.open("a", encoding="utf-8") as log:
+            log.write(f"{os.getpid()} {name}\n")
+        os._exit(70)
